@@ -722,7 +722,9 @@ class Object(base.Symbolic, metaclass=ObjectMeta):
     )
     self._sym_attributes.sym_setparent(self)
     self._on_init()
-    self.seal(sealed)
+    if sealed:
+      # NOTE: members that arrive sealed stay sealed when `sealed` is False.
+      self.seal(True)
 
   #
   # Events that subclasses can override.
